@@ -43,6 +43,14 @@ CHECKS["C11"] = dict(
     ref="DESIGN.md 5.C11",
 )
 
+CHECKS["C17"] = dict(
+    engine="symx+z3",
+    technique="bounded symbolic execution (symx/z3) of the real add_glue_as_needed/builtin_glue over solver-enumerated sys.modules histories with an exactly-once/in-time/module-beats-built-in monitor",
+    text="All histories of 4 (thorough 5) operations (add, remove, re-add same object, fresh object under a removed name, extract, built-in registration after the library import) over 2 (3) module names x 7 glue kinds incl. raising glue, each closed by an extract, run through the real extract(); monitor checked after every extract. Single-threaded histories and fault kinds only.",
+    note="_glue.sys is rebound to a private namespace with a harness-owned modules dict (replay uses the real sys.modules). The 2-4 thread schedules of the property are outside the bound (would need source hooks + a scheduler). Known finding F4 (len fast path) is reported as KNOWN-FINDING.",
+    ref="DESIGN.md 5.C17",
+)
+
 NOT_APPLICABLE = {
     "C06": "Quantifies over interpreter bookkeeping (reference counts, object lifetime, crashes) behind a ctypes boundary; no value a solver can range over, and any symbolic engine perturbs the very refcounts measured (DESIGN.md 5.C06).",
     "C07": "OS-thread interleavings against raw-memory reads; depends on when CPython releases the GIL, not on Python-level data; needs a runtime schedule controller, a different technique family (DESIGN.md 5.C07).",
